@@ -93,74 +93,115 @@ def _loops_of(f):
 @rule("C16.vetoes", "the boundary returned by get_eos has passed parenthesis_level, ITEMIZE_HEADER, is_continuous_phrase and (with a "
                     "checker) has_non_break_word, each with rejecting polarity; prohibited_bos is added to it")
 def vetoes(db, ctx):
-    f = db.one("get_eos", "SentenceDetector")
-    loop = None
+    """truth-table formulation: the accepting `return Ok(boundary)` is reachable when no veto fires and unreachable when any single one
+    does — whatever the control flow that implements it (continue chain, helper returning Option, if-let, map_or)"""
+    from ..flow import holds_at, select
+    from ..inline import nf
+    f = db.view(db.one("get_eos", "SentenceDetector"), depth=3, keep=("parenthesis_level", "prohibited_bos", "is_continuous_phrase", "has_non_break_word"))
+    rets = []
     for n, ps in walk(f.hir):
-        fl = for_loop_parts(n) if n.get("k") == "Match" else None
-        if fl and "SENTENCE_BREAKER" in render(fl[0]):
-            loop = fl
-    if loop is None:
-        raise AnchorMissing("get_eos: loop over SENTENCE_BREAKER matches")
-    it, pat, body = loop
-    ret = None
-    for n, ps in walk(body):
-        if n.get("k") == "Ret" and "Ok" in render(n) and not any(p.get("k") == "If" for p in ps):
-            ret = n
-    if ret is None:
-        raise AnchorMissing("get_eos: `return Ok(eos)` at loop-body level")
-    pcs = path_conditions(ret["id"], body) or []
-    neg = []
-    for c, pol in pcs:
-        if isinstance(c, dict):
-            for a, p in atoms(c, pol):
-                neg.append((render(a), p))
-    txt = " ; ".join(("" if p else "!") + a for a, p in neg)
-    need = {"parenthesis_level": False, "ITEMIZE_HEADER": False, "is_continuous_phrase": False}
-    for a, p in neg:
-        if "parenthesis_level" in a and "> 0" in a and p is False:
-            need["parenthesis_level"] = True
-        if "ITEMIZE_HEADER" in a and "is_match" in a and p is False:
-            need["ITEMIZE_HEADER"] = True
-    # `eos < len && is_continuous_phrase` negated gives a disjunction; look at the statement directly
-    for st in body.get("stmts", []):
-        e = st.get("e") or {}
-        if e.get("k") == "If" and exit_kind(e["then"]) == "continue" and "is_continuous_phrase" in render(e["cond"]):
-            need["is_continuous_phrase"] = True
-    for k, v in need.items():
-        ctx.ob("veto|%s" % k, v, "veto %s precedes the accepting return with `continue` polarity: %s (conditions at the return: %s)" % (k, v, txt[:200]), fn=f)
-    nb = False
-    for st in body.get("stmts", []):
-        e = st.get("e") or {}
-        if e.get("k") == "If" and peel(e["cond"]).get("k") == "LetExpr" and "checker" in render(e["cond"]):
-            for x, _ in walk(e["then"]):
-                if x.get("k") == "If" and "has_non_break_word" in render(x["cond"]) and exit_kind(x["then"]) == "continue":
-                    nb = True
-    ctx.ob("veto|has_non_break_word", nb, "with a checker present, has_non_break_word(..) == true continues to the next candidate: %s" % nb, fn=f)
-    pb = any(e.get("k") == "AssignOp" and e.get("op") == "Add" and "prohibited_bos" in render(e["r"]) and local_name(e["l"]) == "eos" for e, _ in walk(body))
-    ctx.ob("prohibited_bos-added", pb, "closing brackets / commas / terminators after the match are added to the boundary (eos += prohibited_bos(..)): %s" % pb, fn=f)
+        if n.get("k") == "Ret" and "e" in n and not (n.get("mac") and "desugar:QuestionMark" in n["mac"]):
+            e = peel(n["e"])
+            if e.get("k") == "Call" and path_ends(e.get("callee") or "", ("Result::Ok", "Ok")) and e.get("args"):
+                v = peel_casts(e["args"][0])
+                if not (v.get("k") == "Unary" and v.get("op") == "Neg") and any(
+                        (for_loop_parts(p) if p.get("k") == "Match" else None) for p in ps):
+                    rets.append((n, v))
+    if len(rets) != 1:
+        raise AnchorMissing("get_eos: the accepting `return Ok(boundary)` inside the candidate loop", "(%d found)" % len(rets))
+    ret, val = rets[0]
+    VETOES = ("parenthesis_level", "ITEMIZE_HEADER", "is_continuous_phrase", "has_non_break_word")
+
+    def mk_ev(fired):
+        def ev(atom):
+            a = peel(atom)
+            if not isinstance(a, dict):
+                return None
+            if a.get("k") == "Block":             # an inlined boolean helper: its value
+                s_ = select(db, f, a, ev)
+                return None if s_ is a else ev(s_)
+            if a.get("k") == "LetExpr":
+                pth = (a.get("pat") or {}).get("path") or ""
+                if pth.endswith("Some"):
+                    if nf(a["init"]) == "checker":
+                        return True                # scenario: a checker is present
+                    s_ = peel(select(db, f, a["init"], ev))
+                    if isinstance(s_, dict) and s_.get("k") == "Path" and (s_.get("path") or "").endswith("None"):
+                        return False
+                    if isinstance(s_, dict) and s_.get("k") == "Call" and (s_.get("callee") or "").endswith("Some"):
+                        return True
+                return None
+            c = cmp_atom(a)
+            if c:
+                if c[0] == "Gt" and mentions(c[1], is_call_to("parenthesis_level")) and lit_int(c[2]) == 0:
+                    return "parenthesis_level" in fired
+                if c[0] == "Lt" and nf(c[2]).endswith(".len()"):
+                    return True                    # scenario: the candidate lies inside the text
+                return None
+            if a.get("k") == "MethodCall" and a.get("method") == "is_match" and "ITEMIZE_HEADER" in render(a["recv"]):
+                return "ITEMIZE_HEADER" in fired
+            if is_call(a) and path_ends(callee(a) or "", "is_continuous_phrase"):
+                return "is_continuous_phrase" in fired
+            if is_call(a) and path_ends(callee(a) or "", "has_non_break_word"):
+                return "has_non_break_word" in fired
+            if a.get("k") == "MethodCall" and a.get("method") in ("map_or", "is_some_and", "map_or_else") and mentions(a, is_call_to("has_non_break_word")):
+                return "has_non_break_word" in fired
+            if a.get("k") == "Match" and a.get("src") == "TryDesugar":
+                sc = a["scrut"]
+                return ev(sc["args"][0]) if sc.get("args") else None
+            return None
+        return ev
+    pcs = path_conditions(ret["id"], f.hir) or []
+    base = holds_at(pcs, mk_ev(()))
+    ctx.ob("accept|no-veto", base is not False, "with no veto firing the accepting return is reachable: %s" % (base is not False), fn=f, site=ret.get("sp"))
+    for vname in VETOES:
+        r = holds_at(pcs, mk_ev((vname,)))
+        ctx.ob("veto|%s" % vname, r is False,
+               "when %s fires (and nothing else) the accepting `return Ok(boundary)` is %s (must be unreachable: the candidate is skipped)" % (
+                   vname, {False: "unreachable", True: "REACHABLE", None: "not decided"}[r]), fn=f, site=ret.get("sp"))
+    # the accepted boundary includes the closing brackets / commas / terminators that follow the match
+    sel = select(db, f, val, mk_ev(()))
+    pb = "prohibited_bos(" in nf(sel)
+    if not pb and peel_casts(val).get("k") == "Path":
+        lid = peel_casts(val).get("lid")
+        pb = any(e.get("k") == "AssignOp" and e.get("op") == "Add" and mentions(e["r"], is_call_to("prohibited_bos")) and peel(e["l"]).get("lid") == lid for e, _ in walk(f.hir))
+    ctx.ob("prohibited_bos-added", pb, "closing brackets / commas / terminators after the match are added to the accepted boundary: %s" % pb, fn=f)
     nbc = None
-    for x, _ in walk(body):
+    for x, _ in walk(f.hir):
         if is_call(x) and path_ends(callee(x), "has_non_break_word"):
-            nbc = [render(a) for a in call_args(x)]
-    ctx.ob("has_non_break_word-args", nbc is not None and nbc[1:] == ["input", "eos"], "has_non_break_word is called with (input, eos): %s" % nbc, fn=f)
+            a_ = call_args(x)
+            same = nf(select(db, f, a_[2], mk_ev(()))) == nf(sel) or peel_casts(a_[2]).get("lid") == peel_casts(val).get("lid")
+            nbc = (nf(a_[1]), same)
+    ctx.ob("has_non_break_word-args", nbc is not None and nbc[0] == "input" and nbc[1], "has_non_break_word is called with (input, <the boundary that is returned>): %s" % (nbc,), fn=f)
 
 
 @rule("C16.cover", "SentenceIter::next yields position..end, sets position=end, slices data by that range, ends at position==data.len(); "
                    "end = data.len() for a negative get_eos result, position+result otherwise")
 def cover(db, ctx):
-    from ..db import deref_let, walk_x
+    from ..db import deref_all
+    from ..flow import outcomes, select, var_evaluator
+    from ..inline import nf, range_bounds
+    from ..origins import unwrap_try
     fs = [f for f in db.impls_of("Iterator::next") if "SentenceIter" in f.key]
     if len(fs) != 1:
         raise AnchorMissing("<SentenceIter as Iterator>::next")
-    f = fs[0]
-    X = lambda e: render(e, x=True)
-    stop = False
-    for ifn, cond, pol, ek, ps in guarded_exits(f.hir):
-        c = cmp_atom(cond)
-        if c and c[0] == "Eq" and "self.position" in X(cond) and "data.len()" in X(cond) and pol and ek in ("none", "ret"):
-            stop = True
-    ctx.ob("stops-at-end", stop, "returns None exactly when self.position == self.data.len(): %s" % stop, fn=f)
-    # the yielded pair
+    f = db.view(fs[0])
+
+    def classify(e):
+        if e.get("k") == "Path" and (e.get("path") or "").endswith("None"):
+            return "none"
+        if e.get("k") == "Call" and path_ends(e.get("callee") or "", ("Some", "Option::Some")):
+            return "some"
+        return "other"
+    table = {}
+    for at_end in (True, False):
+        def ev(atom, at_end=at_end):
+            c = cmp_atom(atom)
+            if c and c[0] in ("Eq", "Ne") and {nf(c[1]), nf(c[2])} == {"self.position", "self.data.len()"}:
+                return at_end if c[0] == "Eq" else (not at_end)
+            return None
+        table[at_end] = sorted(outcomes(f.hir, ev, classify) - {"try"})
+    ctx.ob("stops-at-end", table == {True: ["none"], False: ["some"]}, "result by (position == data.len()): %s (must be None exactly at the end)" % table, fn=f)
     some = None
     for n, _ in walk(f.hir):
         e = peel(n)
@@ -168,75 +209,67 @@ def cover(db, ctx):
             some = peel(e["args"][0])["elems"]
     if not some or len(some) != 2:
         raise AnchorMissing("SentenceIter::next: Some((range, text))")
-    rng = deref_let(some[0])
-    rtxt = X(some[0])
-    ok_rng = rng.get("k") == "Struct" and "start: self.position" in rtxt
-    ctx.ob("range=position..end", ok_rng, "yielded range is `%s` (must start at self.position)" % rtxt[:120], fn=f)
-    # the end value: negative detector result -> data.len(), otherwise position + result; possibly computed by a private helper
-    end_expr = None
-    if rng.get("k") == "Struct":
-        end_expr = {x["name"]: x["e"] for x in rng["fields"]}.get("end")
-    branches = None
-    cand = []
+    rng = deref_all(some[0])
+    rb = range_bounds(some[0])
+    ctx.ob("range=position..end", rb is not None and rb[0] == "self.position", "yielded range is `%s` (must start at self.position)" % (rb,), fn=f)
+    end_expr = {x["name"]: x["e"] for x in rng["fields"] if "e" in x}.get("end") if isinstance(rng, dict) and rng.get("k") == "Struct" else None
+
+    def is_eos(e):
+        d = deref_all(unwrap_try(deref_all(e)))
+        while isinstance(d, dict) and d.get("k") == "MethodCall" and d.get("method") in ("unwrap", "expect"):
+            d = deref_all(d["recv"])
+        return isinstance(d, dict) and is_call(d) and path_ends(callee(d) or "", "get_eos")
+    ends = {}
     if end_expr is not None:
-        e = deref_let(end_expr)
-        if e.get("k") == "If":
-            cand.append((e, None))
-        elif is_call(e) and callee(e) in db.fns and db.fns[callee(e)].hir:
-            g = db.fns[callee(e)]
-            body_e = peel(g.hir.get("expr") or g.hir)
-            if body_e.get("k") == "If":
-                cand.append((body_e, (g, e)))
-    ok_end = False
-    shown = None
-    for iff, helper in cand:
-        c = cmp_atom(iff["cond"])
-        if not c or lit_int(c[2]) != 0:
-            continue
-        neg_branch, pos_branch = (iff["then"], iff.get("else")) if c[0] == "Lt" else (iff.get("else"), iff["then"]) if c[0] == "Ge" else (None, None)
-        if neg_branch is None or pos_branch is None:
-            continue
-        nb, pb = X(neg_branch), X(pos_branch)
-        # the tested value is the detector's result
-        tested = c[1]
-        if helper:
-            g, call = helper
-            plist = [p_.get("name") for p_ in (g.info.get("params") or [])]
-            nm = local_name(tested)
-            tested_src = X(call_args(call)[plist.index(nm)]) if nm in plist else ""
-        else:
-            tested_src = X(tested)
-        ok_end = "data.len()" in nb and "position" not in nb and "self.position +" in pb and "get_eos" in tested_src
-        shown = "negative -> `%s`, otherwise `%s`, tested value from `%s`" % (nb[:40], pb[:50], tested_src[:60])
-    ctx.ob("end", ok_end, "end: %s (must be data.len() when the detector result is negative, position+result otherwise)" % shown, fn=f)
-    adv = any(n.get("k") == "Assign" and "position" in render(n["l"]) and X(n["r"]) == X(end_expr) for n, _ in walk(f.hir)) if end_expr is not None else False
+        for sign in (-1, 1):
+            ends[sign] = nf(select(db, f, end_expr, var_evaluator(is_eos, sign)))
+    ok_end = ends.get(-1) == "self.data.len()" and "get_eos(" in ends.get(1, "") and ends.get(1, "").startswith("(") and " + " in ends.get(1, "") and "self.position" in ends.get(1, "") \
+        and "self.data.len()" != ends.get(1)
+    ctx.ob("end", ok_end, "end: negative detector result -> `%s`, otherwise `%s` (must be data.len() when the result is negative, position + result otherwise)" % (
+        ends.get(-1), (ends.get(1) or "")[:90]), fn=f)
+    adv = False
+    for n, _ in walk(f.hir):
+        if n.get("k") == "Assign" and nf(n["l"]) == "self.position" and end_expr is not None:
+            adv = all(nf(select(db, f, n["r"], var_evaluator(is_eos, s_))) == ends[s_] for s_ in (-1, 1))
     ctx.ob("advances", adv, "self.position is advanced to the range end: %s" % adv, fn=f)
-    sl = X(some[1])
-    ctx.ob("slice-by-range", "self.data[" in sl and ("start: self.position" in sl), "yielded text is `%s`" % sl[:120], fn=f)
+    sl = deref_all(some[1])
+    sl_ok = False
+    if isinstance(sl, dict) and sl.get("k") == "Index" and nf(sl["e"]) == "self.data":
+        ix_ = deref_all(sl["i"])
+        while isinstance(ix_, dict) and ix_.get("k") == "MethodCall" and ix_.get("method") == "clone":
+            ix_ = deref_all(ix_["recv"])
+        sb = range_bounds(ix_)
+        sl_ok = sb is not None and rb is not None and sb == rb
+    ctx.ob("slice-by-range", sl_ok, "yielded text is `%s` (must be self.data[<the yielded range>])" % render(sl, x=True)[:120], fn=f)
     ge = [c for c, _ in walk(f.hir) if is_call(c) and path_ends(callee(c), "get_eos")]
-    src = X(call_args(ge[0])[1]) if ge else ""
-    ctx.ob("get_eos-on-rest", "self.data[" in src and "RangeFrom{start: self.position" in src.replace("ops::", ""), "get_eos is applied to `%s`" % src[:100], fn=f)
+    src_ok = False
+    src = None
+    if ge:
+        src = deref_all(call_args(ge[0])[1])
+        if isinstance(src, dict) and src.get("k") == "Index" and nf(src["e"]) == "self.data":
+            r_ = deref_all(src["i"])
+            src_ok = isinstance(r_, dict) and r_.get("k") == "Struct" and (r_.get("path") or "").endswith("RangeFrom") and \
+                nf({x["name"]: x["e"] for x in r_["fields"] if "e" in x}.get("start")) == "self.position"
+    ctx.ob("get_eos-on-rest", src_ok, "get_eos is applied to `%s` (must be self.data[self.position..])" % (render(src, x=True)[:100] if src else None), fn=f)
 
 
 @rule("C16.bracket-level", "parenthesis_level never goes below zero: the decrement for a closing bracket is guarded by level > 0 (or saturating), so a "
                            "stray closer cannot cancel a later opener")
 def bracket_level(db, ctx):
     f = db.one("parenthesis_level", None)
-    decs = [(n, ps) for n, ps in walk(f.hir) if n.get("k") == "AssignOp" and n.get("op") == "Sub" and local_name(n["l"]) is not None]
+    # every `L - 1` / `L -= 1` on a counter (in place or as the next accumulator value of a fold) is unreachable when L == 0
+    from ..flow import holds_at, var_evaluator
+    decs = [(n, ps) for n, ps in walk(f.hir) if n.get("k") in ("AssignOp", "Binary") and n.get("op") == "Sub" and local_name(n["l"]) is not None and lit_int(n["r"]) == 1
+            and not (n.get("mac") or [])]
     sat = any(c.get("k") == "MethodCall" and c.get("method") in ("saturating_sub", "checked_sub") for c, _ in walk(f.hir))
     if not decs and not sat:
         raise AnchorMissing("parenthesis_level: level decrement")
     for n, ps in decs:
         nm = local_name(n["l"])
+        lid = peel(n["l"]).get("lid")
         pcs = path_conditions(n["id"], f.hir) or []
-        guarded = False
-        for c, pol in pcs:
-            if isinstance(c, dict):
-                for a, p in atoms(c, pol):
-                    cm = cmp_atom(a)
-                    if cm and p and ((cm[0] == "Gt" and local_name(cm[1]) == nm and lit_int(cm[2]) == 0) or (cm[0] == "Ge" and local_name(cm[1]) == nm and lit_int(cm[2]) == 1)
-                                     or (cm[0] == "Ne" and local_name(cm[1]) == nm and lit_int(cm[2]) == 0)):
-                        guarded = True
+        is_l = lambda e, lid=lid: isinstance(peel_casts(e), dict) and peel_casts(e).get("k") == "Path" and peel_casts(e).get("lid") == lid
+        guarded = holds_at(pcs, var_evaluator(is_l, 0)) is False and holds_at(pcs, var_evaluator(is_l, 1)) is not False
         ctx.ob("decrement-guarded", guarded, "`%s` is executed only when %s > 0: %s (a closer at level 0 must be ignored, not remembered as a negative balance)" % (render(n), nm, guarded), fn=f, site=n.get("sp"))
     ctx.ob("returns-usize", f.info.get("output", "").startswith("std::result::Result<usize"), "parenthesis_level returns %s" % f.info.get("output", "")[:50], fn=f)
 
